@@ -51,6 +51,9 @@ def check_case(case, res=None):
             res.labels["original_rejected(C18)"] += 1
         return
     picks = list(case["picks"])
+    if case.get("v") == 2:
+        # Hypothesis likes lists of equal numbers; choices at different depths of an edit must not be tied together
+        picks = [(p * 2654435761 + i * 7919 + (p >> 3)) % 1000003 for i, p in enumerate(picks)]
     used = []
 
     def pick(seq):
@@ -77,7 +80,7 @@ def check_case(case, res=None):
                 res.sample({"edit": case["edit"], "placement": placement, "rejected_with": f"{type(err2).__name__}: {err2}"[:200]})
     if err2 is None:
         raise Violation("edited_tree_rejected:" + case["edit"] + ":" + placement.split(":")[0].split("@")[0],
-                        {"tree": tree, "edit": case["edit"], "picks": case["picks"],
+                        {"tree": tree, "edit": case["edit"], "picks": case["picks"], "v": case.get("v"),
                          "xml_edited": gencase.xml_of(edited)},
                         "generator raises", "generator accepted the ill-formed tree", placement)
 
@@ -87,8 +90,9 @@ def cases(draw):
     tree = dict(draw(specgen.trees(features=FEATURES)))
     tree.pop("_excluded", None)
     edit = draw(st.sampled_from([n for n, _ in specedit.CATALOGUE]))
-    picks = draw(st.lists(st.integers(0, 10 ** 6), min_size=8, max_size=8))
-    return {"tree": tree, "edit": edit, "picks": picks}
+    blob = draw(st.binary(min_size=24, max_size=24))      # eight 24-bit choices (byte strings are drawn far more evenly than lists of integers)
+    picks = [int.from_bytes(blob[i:i + 3], "big") for i in range(0, 24, 3)]
+    return {"tree": tree, "edit": edit, "picks": picks, "v": 2}
 
 
 def run_task(task):
